@@ -29,6 +29,7 @@ int lha_input_stream_read(LHAInputStream *stream, void *buf, size_t buf_len)
 }
 /* ASSUME: mktime returns some time_t */
 time_t mktime(struct tm *tm) { time_t t; return t; }
+#ifndef VG_CONST_MALLOC
 /* ASSUME: realloc returns NULL (block untouched) or a new block of n bytes holding the old contents, old freed */
 void *realloc(void *ptr, size_t n)
 {
@@ -40,6 +41,7 @@ void *realloc(void *ptr, size_t n)
 	free(ptr);
 	return q;
 }
+#endif
 
 /* ASSUME: sprintf(d, "%s%s", a, b) stores the concatenation of the C strings a and b and a terminator (ISO C);
    the only sprintf call of lha_file_header.c has exactly this format (asserted). */
@@ -60,7 +62,16 @@ int sprintf(char *d, const char *fmt, ...)
 /* constant-capacity allocation for the purely functional bounded groups (symbolic-size heap objects exhaust the
    SAT back end's memory): blocks have VG_CAP bytes, the request must fit; memory safety is NOT claimed by groups
    that use this (their props exclude C08). */
-#define VG_CAP 16
+#define VG_CAP (VG_HN + 4)
+#define VG_HCAP (sizeof(LHAFileHeader) + VG_HN + 8)
+/* header block: constant capacity; calloc zero-fills it; realloc keeps the block in place (a legal realloc outcome)
+   or fails */
+static void *vg_ccalloc(size_t a, size_t b) { __CPROVER_assert(a * b <= VG_HCAP, "bounded group: header block request fits the constant capacity"); return (calloc)(1, VG_HCAP); }
+/* a request beyond the capacity needs more header bytes than the bounded input holds: the read that follows such a
+   growth fails in the real code as well, so failing the growth is outcome-equivalent within the bound */
+static void *vg_crealloc(void *p, size_t n) { if (n > VG_HCAP) return NULL; return nondet_bool() ? p : NULL; }
+#define calloc(a, b) vg_ccalloc(a, b)
+#define realloc(p, n) vg_crealloc(p, n)
 static void *vg_cmalloc(size_t n) { __CPROVER_assert(n <= VG_CAP, "bounded group: allocation request fits the constant capacity"); return (malloc)(VG_CAP); }
 char *strdup(const char *s0)
 {
@@ -203,4 +214,99 @@ void h_symlink_bounded(void)
 		for (k = 0; k < 2 * VG_SL; k++) if (k < gn && k < bar) __CPROVER_assert(got[k] == full[k], "C05 symlink: path ++ name is exactly the text before the first '|'");
 	}
 	VG_CANARY("symlink_bounded");
+}
+
+/* decode_level0_header (levels 0 and 1) alone, as lha_file_header_read calls it: fresh header block holding the
+   first 22 input bytes.  C12 (its own rejection rules) and C05 (fixed fields), bounded by the input size. */
+void h_level01_only(void)
+{
+	LHAFileHeader *h;
+	size_t k;
+	int ok;
+	for (k = 0; k < VG_HN; k++) vg_in_b[k] = nondet_uchar();
+	vg_in_n = nondet_size_t();
+	__CPROVER_assume(vg_in_n <= VG_HN && vg_in_n >= COMMON_HEADER_LEN);
+	__CPROVER_assume(vg_in_b[20] == VG_LEVEL);
+	h = calloc(1, sizeof(LHAFileHeader) + COMMON_HEADER_LEN);
+	__CPROVER_assume(h != NULL);
+	h->_refcount = 1;
+	h->raw_data = (uint8_t *) (h + 1);
+	h->raw_data_len = COMMON_HEADER_LEN;
+	ok = lha_input_stream_read((LHAInputStream *) 0, h->raw_data, h->raw_data_len);
+	__CPROVER_assume(ok);
+	h->header_level = h->raw_data[20];
+	ok = decode_level0_header(&h, (LHAInputStream *) 0);
+	if (ok) {
+		unsigned sum = 0, hl = vg_in_b[0], minl = (VG_LEVEL == 0 ? 22u : 25u), pl = vg_in_b[21];
+		for (k = 0; k < VG_HN; k++) { if (k >= 2 && k < hl + 2) sum += vg_in_b[k]; }
+		__CPROVER_assert(hl + 2 <= vg_in_n, "C12: an accepted level-0/1 header lies inside the input");
+		__CPROVER_assert((sum & 0xff) == vg_in_b[1], "C12: accepted only if the byte sum of the header body equals the checksum byte");
+		__CPROVER_assert(hl >= minl, "C12: accepted only if the length byte reaches the level's minimum");
+		__CPROVER_assert(minl + pl <= hl, "C12: accepted only if the name-length field points inside the header");
+		__CPROVER_assert(h->length == LE32(vg_in_b + 11) && h->compressed_length == LE32(vg_in_b + 7), "C05: sizes are the LE32 fields at offsets 7 and 11");
+		__CPROVER_assert(h->compress_method[0] == (char) vg_in_b[2] && h->compress_method[4] == (char) vg_in_b[6] && h->compress_method[5] == 0, "C05: method is bytes 2..6");
+		__CPROVER_assert(h->crc == LE16(vg_in_b + 22 + pl), "C05: CRC field follows the name");
+		__CPROVER_assert(VG_LEVEL == 0 ? h->os_type == LHA_OS_TYPE_UNKNOWN : h->os_type == vg_in_b[24 + pl], "C05: OS type (level 1: byte after the CRC)");
+	}
+	VG_CANARY("level01_only");
+}
+
+/* decode_level2_header alone (with the real extended-header chain walk and decoders), bounded by the input size */
+void h_level2_only(void)
+{
+	LHAFileHeader *h;
+	size_t k;
+	int ok;
+	for (k = 0; k < VG_HN; k++) vg_in_b[k] = nondet_uchar();
+	vg_in_n = nondet_size_t();
+	__CPROVER_assume(vg_in_n <= VG_HN && vg_in_n >= COMMON_HEADER_LEN);
+	__CPROVER_assume(vg_in_b[20] == 2);
+	h = calloc(1, sizeof(LHAFileHeader) + COMMON_HEADER_LEN);
+	__CPROVER_assume(h != NULL);
+	h->_refcount = 1;
+	h->raw_data = (uint8_t *) (h + 1);
+	h->raw_data_len = COMMON_HEADER_LEN;
+	ok = lha_input_stream_read((LHAInputStream *) 0, h->raw_data, h->raw_data_len);
+	__CPROVER_assume(ok);
+	h->header_level = 2;
+	ok = decode_level2_header(&h, (LHAInputStream *) 0);
+	if (ok) {
+		unsigned tl = LE16(vg_in_b), os9 = (vg_in_b[23] == LHA_OS_TYPE_OS9_68K) ? 2u : 0u, off, len;
+		_Bool chain_ok = 1, done = 0;
+		__CPROVER_assert(tl >= 26, "C12: an accepted level-2 header declares at least the fixed 26 bytes");
+		__CPROVER_assert(tl + os9 <= vg_in_n, "C12: an accepted level-2 header lies inside the input");
+		__CPROVER_assert(h->compressed_length == LE32(vg_in_b + 7) && h->length == LE32(vg_in_b + 11) && h->timestamp == LE32(vg_in_b + 15) &&
+		                 h->crc == LE16(vg_in_b + 21) && h->os_type == vg_in_b[23], "C05: level-2 fixed fields at offsets 7, 11, 15, 21, 23");
+		__CPROVER_assert(h->compress_method[0] == (char) vg_in_b[2] && h->compress_method[4] == (char) vg_in_b[6] && h->compress_method[5] == 0, "C05: method is bytes 2..6");
+		/* independent walk of the extended-header chain: each length field (2 bytes, first at offset 24) is 0 (end) or
+		   covers at least its own size field + type byte and stays inside the header */
+		off = 24;
+		for (k = 0; k < VG_HN / 3 + 1; k++) {
+			if (!done) {
+				if (off + 2 > tl + os9) { chain_ok = 0; done = 1; }
+				else {
+					len = LE16(vg_in_b + off);
+					if (len == 0) done = 1;
+					else if (len < 3 || off + 2 + len > tl + os9 + 0u + 2u) { chain_ok = 0; done = 1; }
+					else off += len;
+				}
+			}
+		}
+		__CPROVER_assert(!done || chain_ok, "C12: an accepted level-2 header has an extended-header chain whose length fields stay inside the header");
+	}
+	VG_CANARY("level2_only");
+}
+
+/* levels above 3 are never returned */
+void h_level_gt3(void)
+{
+	LHAFileHeader *h;
+	size_t k;
+	for (k = 0; k < VG_HN; k++) vg_in_b[k] = nondet_uchar();
+	vg_in_n = nondet_size_t();
+	__CPROVER_assume(vg_in_n <= VG_HN);
+	__CPROVER_assume(vg_in_b[20] > 3);
+	h = lha_file_header_read((LHAInputStream *) 0);
+	__CPROVER_assert(h == NULL, "C12: a header with level above 3 is never returned");
+	VG_CANARY("level_gt3");
 }
